@@ -160,6 +160,15 @@ func c17iDraw(rt *rapid.T) *c17iCase {
 
 	var tg spec
 	op := rapid.IntRange(0, 6).Draw(rt, "op")
+	if len(specs) == 0 && !strings.Contains(cs.File, "import \"C\"") && rapid.Bool().Draw(rt, "renameThenReplace") {
+		// No imports: f is the first declaration. Two changes: the package
+		// is renamed (and f rewritten inside), then f is replaced by a
+		// declaration of another kind. The comments of the package clause
+		// stay what and where they are.
+		cs.Op = "rename-package-then-replace-first-declaration"
+		cs.Patch = "@@\n@@\n-package subject\n+package subject2\n\n-foo()\n+bar()\n\n@@\n@@\n-func f() {\n-  ...\n-}\n+var f = 1\n"
+		return cs
+	}
 	if len(specs) > 0 {
 		tg = specs[rapid.IntRange(0, len(specs)-1).Draw(rt, "target")]
 	} else if op <= 2 || op == 6 {
@@ -294,6 +303,11 @@ func c17iJudge(cs *c17iCase, out string) (found []c17iFinding) {
 	for _, c := range cs.Comments {
 		k := strings.Count(out, c.Tok+"\n") + strings.Count(out, c.Tok+" ")
 		ofTarget := cs.Target != "" && c.Path == cs.Target
+		if cs.Op == "rename-package-then-replace-first-declaration" && (c.Path == "f" || c.Kind == "free") {
+			// f is replaced; a free-standing comment in front of it is not
+			// tied to the package clause
+			ofTarget = true
+		}
 		if cs.Op == "delete-import-after-code-change" && (c.Path == "f" || c.Path == "before-f" || (c.Decl != 0 && c.Decl == cs.TargetDecl)) {
 			// f is rewritten by the first change: its comments, and the
 			// free-standing one between it and the deleted import, do not
@@ -353,7 +367,7 @@ func c17iJudge(cs *c17iCase, out string) (found []c17iFinding) {
 				detached("not on the line below the package clause")
 			}
 		case "pkg-doc":
-			if nextCode(i) != "package subject" && !strings.HasPrefix(nextCode(i), "package subject ") {
+			if nc := nextCode(i); nc != "package subject" && nc != "package subject2" && !strings.HasPrefix(nc, "package subject ") && !strings.HasPrefix(nc, "package subject2 ") {
 				detached("not directly above the package clause")
 			}
 		case "header":
